@@ -20,6 +20,10 @@ if sys.path[0] != REPO:
 
 warnings.filterwarnings("ignore")
 sys.dont_write_bytecode = True
+# Amaranth's Python simulator compiles expressions recursively; the OR-reduction chain of a multiplexer with a few
+# hundred shadow chunks is deeper than the default limit (trusted-base limitation, not a property of the code
+# under test). A logical step bound, not the recursion limit, is what detects runaway recursion (sanitize.py).
+sys.setrecursionlimit(20000)
 
 import amaranth_soc  # noqa: E402
 
